@@ -351,3 +351,93 @@ def search_decode(prop, rng, corr_failures, run_cases, limit=10):
                     d["build"] = "%s, cargo build --profile %s: no debug assertions, no overflow checks" % (what, profile)
                     return Failure("oracle", fs[0][0], c, d)
     return None
+
+
+# ----------------------------------------------------------------------------------------------
+# the length-limited readers (`read_limited`, LimitedReader) against the slice cut at the limit
+
+
+def _ext_header(rng, kind, nxt):
+    """one extension header of the given kind (0/43/60 raw, 44 fragment, 51 auth) naming `nxt`"""
+    if kind == 44:
+        return bytes([nxt, rng.randrange(256)]) + bytes(rng.randrange(256) for _ in range(6))
+    if kind == 51:
+        pl = rng.choice([1, 1, 2, 3, 4, 0, rng.randrange(256)])
+        n = (pl + 2) * 4 if pl >= 1 else 8
+        return bytes([nxt, pl]) + bytes(rng.randrange(256) for _ in range(max(n, 8) - 2))
+    el = rng.choice([0, 0, 1, 2, 3])
+    return bytes([nxt, el]) + bytes(rng.randrange(256) for _ in range((el + 1) * 8 - 2))
+
+
+def readlim_cases(rng, n):
+    """(lines, meta) of `impl.dec.readlim_*` operations: extension chains with the limit around every header
+    boundary, inside headers, and beyond the chain"""
+    from .core import Case
+    from .gen import hx
+
+    for i in range(n):
+        kinds = [rng.choice([0, 43, 60, 44, 51, 60, 44]) for _ in range(rng.choice([1, 1, 2, 2, 3, 4, 5]))]
+        if rng.random() < 0.5:
+            # the canonical order the struct accepts
+            order = {0: 0, 60: 1, 43: 2, 44: 3, 51: 4}
+            kinds = sorted(set(kinds), key=lambda k: order[k])
+            if rng.random() < 0.3 and 43 in kinds:
+                kinds.insert(kinds.index(43) + 1, 60)
+        last = rng.choice([6, 17, 58, 59, 44, 51, 0])
+        chain, bounds = b"", [0]
+        for j, k in enumerate(kinds):
+            nxt = kinds[j + 1] if j + 1 < len(kinds) else last
+            chain += _ext_header(rng, k, nxt)
+            bounds.append(len(chain))
+        tail = bytes(rng.randrange(256) for _ in range(rng.choice([0, 3, 8, 20, 40])))
+        data = chain + tail
+        cut_at = rng.choice(bounds)
+        lim = max(0, min(len(data), cut_at + rng.choice([0, 0, -1, -4, -7, 1, 2, 4, 7, 8, 11, 12, 40])))
+        if rng.random() < 0.15:
+            lim = len(data)
+        lines = ["impl.dec.readlim_v6exts\t%d\t%s" % (lim, hx(bytes([kinds[0]]) + data))]
+        # the single-header readers on the first header
+        one = {44: "frag", 51: "ah"}.get(kinds[0], "rawext")
+        lines.append("impl.dec.readlim_%s\t%d\t%s" % (one, lim, hx(bytes([kinds[0]]) + data)))
+        if kinds[0] == 51 or i % 7 == 0:
+            lines.append("impl.dec.readlim_v4exts\t%d\t%s" % (lim, hx(bytes([kinds[0]]) + data)))
+        yield Case(lines, {"readlim": 1, "kinds": kinds, "lim": lim, "len": len(data)})
+
+
+_LENERR = re.compile(r"LenError \{ required_len: (?P<req>\d+), len: (?P<len>\d+), len_source: (?P<src>\w+), layer: (?P<layer>\w+), layer_start_offset: (?P<off>\d+) \}")
+
+
+def readlim_oracle(c, out):
+    for line, o in zip(c.lines, c.impl):
+        if o is None or not line.startswith("impl.dec.readlim_"):
+            continue
+        op = line.split("\t", 1)[0]
+        if not o.startswith("slice="):
+            out.append((op + "-no-result", {"impl": o[:300]}))
+            continue
+        sl, rd = o[6:].split("|read=", 1)
+        if "!accessor-mismatch" in rd:
+            out.append(("limited-reader-accessor-mismatch", {"op": op, "impl": o[:400]}))
+            rd = rd.replace("!accessor-mismatch", "")
+        if sl == rd:
+            continue
+        # a reader fetches a header in pieces and may know its real size when it runs into the limit, so the
+        # two sides may name different required lengths; each has to be a number of bytes the header really
+        # requires (more than there are, no more than its true size) and everything else has to be equal
+        ms, mr = _LENERR.search(sl), _LENERR.search(rd)
+        if ms and mr and sl.startswith("err(len(") and rd.startswith("err(len("):
+            fs, fr = ms.groupdict(), mr.groupdict()
+            lim = int(line.split("\t")[1])
+            data = bytes.fromhex(line.split("\t")[2])[1:][:lim]
+            off = int(fr["off"]) - 40
+            hdr = data[off:] if 0 <= off <= len(data) else b""
+            if fr["layer"] == "Ipv6FragHeader":
+                true = 8
+            elif fr["layer"] == "IpAuthHeader":
+                true = (hdr[1] + 2) * 4 if len(hdr) >= 2 and hdr[1] >= 1 else 12
+            else:
+                true = (hdr[1] + 1) * 8 if len(hdr) >= 2 else 8
+            same_rest = all(fs[k] == fr[k] for k in ("len", "src", "layer", "off"))
+            if same_rest and int(fr["len"]) < int(fr["req"]) <= true and int(fs["len"]) < int(fs["req"]) <= true:
+                continue
+        out.append((op + "-differs-from-slice-cut-at-limit", {"slice": sl[:500], "read": rd[:500], "line": line[:300]}))
